@@ -289,6 +289,7 @@ type c07SdpOpt struct {
 	audio      string // "", "aac", "pcma", "pcmu", "opus"
 	aRate, aCh int
 	vPt, aPt   int
+	noRtpmap   bool // G.711 announced by its static payload type alone (RFC 3551), no a=rtpmap line
 }
 
 func c07Sdp(o c07SdpOpt) []byte {
@@ -317,9 +318,17 @@ func c07Sdp(o c07SdpOpt) []byte {
 		fmt.Fprintf(&sb, "a=fmtp:%d profile-level-id=1;mode=AAC-hbr;sizelength=13;indexlength=3;indexdeltalength=3; config=%s\r\n", o.aPt, strings.ToUpper(hx(c07Asc(o.aRate, o.aCh))))
 		sb.WriteString("a=control:streamid=1\r\n")
 	case "pcma":
-		fmt.Fprintf(&sb, "m=audio 0 RTP/AVP %d\r\na=rtpmap:%d PCMA/%d\r\na=control:streamid=1\r\n", o.aPt, o.aPt, o.aRate)
+		if o.noRtpmap {
+			fmt.Fprintf(&sb, "m=audio 0 RTP/AVP %d\r\na=control:streamid=1\r\n", o.aPt)
+		} else {
+			fmt.Fprintf(&sb, "m=audio 0 RTP/AVP %d\r\na=rtpmap:%d PCMA/%d\r\na=control:streamid=1\r\n", o.aPt, o.aPt, o.aRate)
+		}
 	case "pcmu":
-		fmt.Fprintf(&sb, "m=audio 0 RTP/AVP %d\r\na=rtpmap:%d PCMU/%d\r\na=control:streamid=1\r\n", o.aPt, o.aPt, o.aRate)
+		if o.noRtpmap {
+			fmt.Fprintf(&sb, "m=audio 0 RTP/AVP %d\r\na=control:streamid=1\r\n", o.aPt)
+		} else {
+			fmt.Fprintf(&sb, "m=audio 0 RTP/AVP %d\r\na=rtpmap:%d PCMU/%d\r\na=control:streamid=1\r\n", o.aPt, o.aPt, o.aRate)
+		}
 	case "opus":
 		fmt.Fprintf(&sb, "m=audio 0 RTP/AVP %d\r\na=rtpmap:%d opus/%d/2\r\na=control:streamid=1\r\n", o.aPt, o.aPt, o.aRate)
 	}
@@ -869,6 +878,7 @@ type c07RtspCase struct {
 	reorder         bool
 	lalPacker       bool
 	ausPerPkt       int
+	noRtpmap        bool
 }
 
 func c07RtspOp(r *Rng, c c07RtspCase, avc, hv c07Params) (string, string) {
@@ -876,7 +886,7 @@ func c07RtspOp(r *Rng, c c07RtspCase, avc, hv c07Params) (string, string) {
 	if c.video == "hevc" {
 		ps = hv
 	}
-	o := c07SdpOpt{video: c.video, ps: ps, sprop: c.sprop, audio: c.audio, aRate: c.aRate, aCh: 2, vPt: 96, aPt: 97}
+	o := c07SdpOpt{video: c.video, ps: ps, sprop: c.sprop, audio: c.audio, aRate: c.aRate, aCh: 2, vPt: 96, aPt: 97, noRtpmap: c.noRtpmap && c.aRate == 8000}
 	if c.video == "hevc" {
 		o.vPt = 98
 	}
@@ -988,6 +998,11 @@ func c07GenRtsp(g *G, avc, hv c07Params) {
 			emit("corpus-lalpacker-", c07RtspCase{video: v, audio: a, aRate: rate, nVideo: 8, nAudio: 12, max: 24, inband: true, sprop: true, lalPacker: true})
 		}
 	}
+	// G.711 announced by the static payload type alone (RFC 3551): no rtpmap line, 8000 Hz all the same
+	for _, a := range []string{"pcma", "pcmu"} {
+		emit("corpus-static-pt-", c07RtspCase{video: "avc", audio: a, aRate: 8000, nVideo: 12, nAudio: 20, max: 24, inband: true, sprop: true, seqV: 1, seqA: 1, noRtpmap: true})
+		emit("corpus-static-pt-", c07RtspCase{audio: a, aRate: 8000, nAudio: 30, seqA: 7, noRtpmap: true})
+	}
 	for _, a := range []string{"aac", "pcma", "opus"} {
 		rate := map[string]int{"aac": 22050, "pcma": 8000, "opus": 48000}[a]
 		emit("corpus-", c07RtspCase{audio: a, aRate: rate, nAudio: 30, seqA: 65533, reorder: true})
@@ -1011,6 +1026,7 @@ func c07GenRtsp(g *G, avc, hv c07Params) {
 			c.aRate = c07AacRates[r.Intn(len(c07AacRates))]
 		case "pcma", "pcmu":
 			c.aRate = 8000
+			c.noRtpmap = r.Intn(4) == 0
 		case "opus":
 			c.aRate = 48000
 		}
